@@ -39,7 +39,7 @@ STATES = [0, 1, 2, 3, 4, 5, 6, 7, 8, 9, 10, 11]
 def plan(tier, prop):
     quick = tier == "quick"
     return {
-        "runs": 2500 if quick else 150000,
+        "runs": 6000 if quick else 300000,
         "budget_s": 50 if quick else 800,
         "chunk": 20 if quick else 100,
         "rule": "each run = one drawn machine state (size, dead / "
